@@ -409,6 +409,14 @@ def impl_reseed(job):
             for k in (0.3, 0.75, 1.0, 1.5, 4.0, 25.0):
                 prims.append(("gamma(k=%g)" % k, (lambda kk: (lambda: br.py_gamma_rv(kk, 0.5)))(k)))
                 prims.append(("erlang(k=%g)" % k, (lambda kk: (lambda: br.py_erlang_rv(kk, 0.5)))(k)))
+            # the stream after py_seed_random(s) is the one of MT19937-64 seeded with s - for 64-bit seeds as well
+            from .c05 import mt64_reference
+            br.py_seed_random(sd)
+            got = [int(br.py_rand_int()) for _ in range(6)]
+            if sd != 0 and got != mt64_reference(sd, 6):
+                res = {"ok": False, "what": "reseed:seed-not-honoured", "detail": "after py_seed_random(%d) the generator does not produce the stream of that seed" % sd}
+                out.append(res)
+                continue
             for name, fn in prims:
                 br.py_seed_random(sd)
                 a = [fn() for _ in range(40)]
@@ -468,8 +476,10 @@ def run(tier):
     counters = {}
     judge(v, jobs, results, counters)
     rjobs = [{"seeds": [seed * 977 + 13 * j + i for i in range(2 if tier == "quick" else 8)]} for j in range(4)]
+    # seeds that do not fit 32 bits (the generator is a 64-bit one and py_seed_random takes 64-bit seeds)
+    rjobs.append({"seeds": [2 ** 32, 3 * 2 ** 32, 2 ** 40 + 5 * seed, 2 ** 63 + 11]})
     n_reseed = 0
-    for job, res in zip(rjobs, pool.run_jobs("c08", "impl_reseed", rjobs, nworkers=4)):
+    for job, res in zip(rjobs, pool.run_jobs("c08", "impl_reseed", rjobs, nworkers=5)):
         if "harness_exception" in res:
             raise common.MachineryError("C08 reseed harness failed: %s\n%s" % (res["harness_exception"], res.get("tb", "")))
         for i, sd in enumerate(job["seeds"]):
